@@ -1,2 +1,3 @@
 import SR.Drv.C05
-def main : IO Unit := SR.Drv.runMain [SR.Drv.C05.handle]
+import SR.Drv.Full
+def main : IO Unit := SR.Drv.runMain [SR.Drv.C05.handle, SR.Drv.Full.handle]
